@@ -98,6 +98,20 @@ impl RpcService for EchoSvc {
         r.add_handler::<Tiny5>();
         r.add_handler::<Tiny2>();
         r.add_handler::<Nothing>();
+        r.add_handler::<Body>();
+    }
+}
+
+// raw bodies are not framed at all (no archive root, no checksum trailer): the handler answers
+// with the length it saw followed by the bytes it saw, reversed
+#[datacake_rpc::async_trait]
+impl Handler<Body> for EchoSvc {
+    type Reply = Body;
+    async fn on_message(&self, msg: Request<Body>) -> Result<Body, Status> {
+        let bytes = hyper::body::to_bytes(msg.into_inner().into_inner()).await.map_err(Status::internal)?;
+        let mut reply = vec![bytes.len() as u8];
+        reply.extend(bytes.iter().rev());
+        Ok(Body::from(reply))
     }
 }
 
@@ -376,7 +390,7 @@ impl Check for C12 {
         "E2: server host (real datacake-rpc Server + echo service that logs every handler invocation) and client host (real RpcClient, plus a raw hyper HTTP/2 client for damaged requests and a same-URI impostor service for damaged replies) over simulated TCP; frame corruption enumerated at DataView::using, the decision point both directions share"
     }
     fn rule(&self) -> &'static str {
-        "Cases: seeded message values (fixed-size struct, strings, byte vectors empty..max, nested options and vectors, one value in eight with a flat list of 1500-6000 small structs; a quarter make the handler fail with a seeded error code and message). Per value: (1) through the real client and server (plus a message and a reply of size zero, and three small messages of 3, 5 and 2 bytes, whose archived forms have alignment below 4 and lengths that are not multiples of 4, answered by a handler that increments every component): handler-observed value == sent, reply == handler's, error code and message identical, exactly one invocation; (2) at DataView::using for the request frame, the reply frame and a Status frame: EVERY single-bit flip (frames <= 1 KiB; 4096 seeded flips above), EVERY truncation length (<= 2 KiB; 1024 seeded above), extensions by 1..16 bytes, and EVERY length below size_of(archived root) as an all-zero and a random body with a CORRECT checksum; (3) a seeded sample of those damaged frames is sent through the network - requests by a raw HTTP/2 POST to the real URI, replies by an impostor service on the same URI - with latency and an optional link hold; (4) up to six valid request frames and six valid reply frames are delivered in 2-9 pieces at seeded cut points without a declared body length (a streaming peer) and must be observed unchanged. Oracle: damaged/short frames are refused (Err / InvalidPayload), no handler runs on them, nothing panics (debug assertions and overflow checks are on). Non-trivial = every case (each runs thousands of corruptions). Distinct = hash of the value seed and sizes."
+        "Cases: seeded message values (fixed-size struct, strings, byte vectors empty..max, nested options and vectors, one value in eight with a flat list of 1500-6000 small structs; a quarter make the handler fail with a seeded error code and message). Per value: (1) through the real client and server (plus raw unframed bodies of 0-5 and 9 bytes, a message and a reply of size zero, and three small messages of 3, 5 and 2 bytes, whose archived forms have alignment below 4 and lengths that are not multiples of 4, answered by a handler that increments every component): handler-observed value == sent, reply == handler's, error code and message identical, exactly one invocation; (2) at DataView::using for the request frame, the reply frame and a Status frame: EVERY single-bit flip (frames <= 1 KiB; 4096 seeded flips above), EVERY truncation length (<= 2 KiB; 1024 seeded above), extensions by 1..16 bytes, and EVERY length below size_of(archived root) as an all-zero and a random body with a CORRECT checksum; (3) a seeded sample of those damaged frames is sent through the network - requests by a raw HTTP/2 POST to the real URI, replies by an impostor service on the same URI - with latency and an optional link hold; (4) up to six valid request frames and six valid reply frames are delivered in 2-9 pieces at seeded cut points without a declared body length (a streaming peer) and must be observed unchanged. Oracle: damaged/short frames are refused (Err / InvalidPayload), no handler runs on them, nothing panics (debug assertions and overflow checks are on). Non-trivial = every case (each runs thousands of corruptions). Distinct = hash of the value seed and sizes."
     }
     fn assumptions(&self) -> Vec<String> {
         vec![
@@ -589,8 +603,25 @@ impl Check for C12 {
                     let calls_before = NOTHING_CALLS.with(|c| c.get());
                     let r0 = client.send(&Nothing).await.map(|_| ()).map_err(|e| format!("{:?}: {}", e.code, e.message));
                     let calls = NOTHING_CALLS.with(|c| c.get()) - calls_before;
+                    // raw bodies of 0..=5 bytes and one longer one
+                    let mut raw_results: Vec<(Vec<u8>, Result<Vec<u8>, String>)> = Vec::new();
+                    for len in [0usize, 1, 2, 3, 4, 5, 9] {
+                        let payload: Vec<u8> = c.iter().cycle().skip(i % 12).take(len).copied().collect();
+                        let res = match client.send_owned(Body::from(payload.clone())).await {
+                            Ok(r) => hyper::body::to_bytes(r.into_inner()).await.map(|b| b.to_vec()).map_err(|e| e.to_string()),
+                            Err(e) => Err(format!("{:?}: {}", e.code, e.message)),
+                        };
+                        raw_results.push((payload, res));
+                    }
                     let mut o = net_out.borrow_mut();
                     o.probe("small_messages_exchanged");
+                    for (payload, res) in raw_results {
+                        let mut want = vec![payload.len() as u8];
+                        want.extend(payload.iter().rev());
+                        if res.as_ref().ok() != Some(&want) {
+                            o.violate("C12/raw-body-not-delivered-intact", format!("value #{i}: a raw body of {} byte(s) {:?}: the client got {:?} instead of the handler's {:?}", payload.len(), payload, res, want));
+                        }
+                    }
                     if calls != 1 {
                         o.violate("C12/empty-message-handler-not-invoked-exactly-once", format!("value #{i}: a message of size zero: the handler ran {calls} times (client: {:?})", r0));
                     } else if let Err(e) = &r0 {
